@@ -196,9 +196,16 @@ def trace_part(chk, n_seg, n_file):
         araw = None
         if an_state == 'broken' and c:
             araw = fcsgen.encode_text(c, dl)[:-1] + 'zz' if len(c) % 2 else dl + dl + 'q' + dl
-        blob, lay = fcsgen.build(version=version, pairs=req + a, data=b'\x07', delim=dl, supp_pairs=b or None, stext_first=(counter[0] % 5 == 0),
+        # every seventh file keeps its supplemental TEXT after all other segments, every fourteenth of them lost it (the
+        # copy stopped in the padding before it, or right where it starts): announced keywords that are not there
+        last = counter[0] % 7 == 3 and bool(b)
+        blob, lay = fcsgen.build(version=version, pairs=req + a, data=b'\x07', delim=dl, supp_pairs=b or None,
+                                 stext_first=(counter[0] % 5 == 0 and not last), stext_last=last,
                                  analysis_pairs=c or None, analysis_in=analysis_in, supp_lead=supp_lead,
-                                 pad_text=pad, raw_analysis=araw, analysis_lead=an_lead, offset_style=ostyle)
+                                 pad_text=pad, pad_tail=2 if last else 0, raw_analysis=araw, analysis_lead=an_lead, offset_style=ostyle)
+        announced = lay['se'] - lay['sb'] + 1 if lay['sb'] else 0
+        if last and counter[0] % 14 == 3:
+            blob = blob[:lay['sb'] - (counter[0] // 14) % 2 * (0 if c else 1)]
         path = os.path.join(d0, 'f.fcs')
         with open(path, 'wb') as f:
             f.write(blob)
@@ -212,7 +219,7 @@ def trace_part(chk, n_seg, n_file):
             awarn = any('ANALYSIS segment could not be parsed' in str(x.message) for x in w)
         tb, te = lay['text_begin'], lay['text_end']
         rec = {'op': 'merge', 'd': ord(dl), 'q': list(blob[tb:te + 1]),
-               'sq': list(blob[lay['sb']:lay['se'] + 1]) if lay['sb'] else [],
+               'sq': list(blob[lay['sb']:lay['se'] + 1]) if lay['sb'] else [], 'sn': announced,
                'aq': list(blob[lay['ab']:lay['ae'] + 1]) if lay['ab'] else [],
                'k': k, 'dict': proj_dict(ff.text) if k == 'ok' else [],
                'adict': proj_dict(ff.analysis) if k == 'ok' else [], 'awarn': awarn,
@@ -240,7 +247,7 @@ def trace_part(chk, n_seg, n_file):
             awarn = any('ANALYSIS segment could not be parsed' in str(x.message) for x in w)
         os.remove(path)
         tb, te = lay['text_begin'], lay['text_end']
-        file_cases.append({'op': 'merge', 'd': ord('/'), 'q': list(blob[tb:te + 1]), 'sq': [],
+        file_cases.append({'op': 'merge', 'd': ord('/'), 'q': list(blob[tb:te + 1]), 'sq': [], 'sn': 0,
                            'aq': list(blob[lay['ab']:lay['ae'] + 1]), 'k': k, 'dict': proj_dict(ff.text) if k == 'ok' else [],
                            'adict': proj_dict(ff.analysis) if k == 'ok' else [], 'awarn': awarn,
                            'meta': {'version': version, 'analysis_in': an_in, 'analysis_begin': lay['ab']}})
